@@ -69,3 +69,14 @@ claim('C10', 'other',
       'static analysis: test-and-set latches of defunct()/close() in the base connection and all six reactors, must-call chain after the latch, '
       'swap-and-drain shape of error_all_requests, refusal dominance in send_msg, defunct_on_error coverage, decode-failure arm',
       'sibling cross-check over six reactors + CFG must-call dataflow + swap-and-drain reaching definitions', _TB, 'DESIGN.md section 5 C10')
+
+claim('C11', 'other',
+      'static analysis (narrow): per reactor push(): chunk step/slice agreement, a single hand-off of the whole chunk list, enqueueing inside one '
+      'critical section with no suspension point, single FIFO consumer, twisted single transport.write, and that the lock idiom exists on supported '
+      'Pythons. Thread interleavings themselves are not decided',
+      'sibling structure rules over the reactors (syntax-directed, lock regions)', _TB, 'DESIGN.md section 5 C11')
+claim('C12', 'other',
+      'static analysis: dominance of the shut-down test over hand-outs, orphan return never decrements, shutdown drains every connection-holding '
+      'attribute (swap-and-drain reaching definitions), trash removal implies close, created => published-or-closed on all paths incl. exceptional, '
+      'publication re-checked under the pool lock',
+      'CFG dataflow with exceptional edges (typestate created/published/closed) + reaching definitions', _TB, 'DESIGN.md section 5 C12')
